@@ -66,7 +66,7 @@ TINY = 4 * 5e-324
 
 def budget(tier):
     if tier == "quick":
-        return {"examples": 4000, "shards": 16}
+        return {"examples": 8000, "shards": 16}
     return {"examples": 160000, "shards": 16}
 
 
